@@ -83,6 +83,27 @@ def check_trace(err, files):
 FAULT_BLOCK = {"t": "type", "name": "@zfault", "annot": "", "body": {"k": "obj", "n": "", "props": [{"key": "r", "vk": "ref", "vn": "@nonexistent"}], "allOf": []}}
 
 
+def _rawf(label, *lines):
+    return {"t": "raw", "label": label, "lines": list(lines)}
+
+
+# faults raised by different parts of the library (schema error at an index of the body, body-level error, keyword-level
+# error at the compile, build and final-check stages, scan-stage error), each appended to an included file
+FAULT_BLOCKS = [
+    [FAULT_BLOCK],
+    [_rawf("TYPE", "TYPE @zscalar", "1"), _rawf("GET", "GET /zfault1", "  200 any", "    Headers", "      @zscalar")],          # body must be object
+    [_rawf("GET", "POST /zfault2", "  Request any", "    Headers", "      @zscalar2", "  200 any"), _rawf("TYPE", "TYPE @zscalar2", "[1]")],
+    [_rawf("GET", "GET /zfault3", "  Description", "  ( text on the parenthesis line", "  )", "  200 any")],
+    [_rawf("GET", "GET /zfault4", "  201", "    Headers", "    {", '      "h": "v"', "    }")],                                 # response without a body
+    [_rawf("TYPE", "TYPE @zdup any"), _rawf("TYPE", "TYPE @zdup any")],                                                       # duplicate name
+    [_rawf("GET", "GET /zfault6", "  Tags @zundeclared", "  200 any")],
+    [_rawf("TYPE", "TYPE @zre regex", "/(unclosed/")],
+    [_rawf("GET", "GET /zfault8", "  Path", "  {", '    "nosegment": 1', "  }", "  200 any")],
+    [_rawf("ENUM", "ENUM @zen", "[", "  1,", "  1", "]")],
+    [_rawf("GET", "GET /zfault10", "  200 any", "  Bogus")],                                                                   # scan stage
+]
+
+
 def main(tier):
     chk = Check("C02", tier)
     thorough = tier == "thorough"
@@ -132,7 +153,7 @@ def main(tier):
                 continue
             target = rnd.choice(sorted(files))
             ff = dict(files)
-            ff[target] = ff[target] + apidoc.render([FAULT_BLOCK], header=False)[0]
+            ff[target] = ff[target].replace("\r\n", "\n").replace("\r", "\n") + apidoc.render(FAULT_BLOCKS[(n + len(cases)) % len(FAULT_BLOCKS)], header=False)[0]
             main_text = apidoc.render(main_blocks)[0]
             # every file of the project in its own newline convention
             conv = {k: rnd.choice(["\n", "\n", "\r\n", "\r"]) for k in list(ff) + ["main.jst"]}
